@@ -469,7 +469,10 @@ pub fn tie_history_w<P: PT>(w: u32) -> BoxedStrategy<(Vec<Step>, u64)> {
         // tiny product at a drawn depth below the sum (uniform over the whole reach of the quire), half of
         // the time a pure power of two: then the only sticky information is ONE bit at that depth
         let sv = gen::scale_of(n, es, a).unwrap_or(0).max(gen::scale_of(n, es, b).unwrap_or(0));
-        let depth = w as i32 / 2 + (raw % (2 * ms as u64 + 8)) as i32;
+        // a quarter of the depths sit next to the accumulator's limb size (the sticky masks of to_posit are
+        // built from 64 - lz / 63 - lz: seeded C12-r3-m1, C14-r3-m1, C18-r3-m1 all lose exactly bit L-64)
+        const LIMBISH: [i32; 12] = [63, 64, 65, 127, 128, 129, 191, 192, 193, 31, 32, 33];
+        let depth = if (raw >> 52) & 3 == 0 { LIMBISH[(raw >> 54) as usize % 12] } else { w as i32 / 2 + (raw % (2 * ms as u64 + 8)) as i32 };
         let target = (sv - depth).max(-2 * ms);
         let s1 = (target / 2 + ((raw >> 16) % 9) as i32 - 4).clamp(-ms, ms);
         let s2 = (target - s1).clamp(-ms, ms);
